@@ -810,7 +810,7 @@ pub fn generate(rng: &mut Rng, prof: &Profile) -> RunSpec {
         cfg.full_check_every = 16;
     }
     ops.shrink_to_fit();
-    RunSpec { cfg, ops, faults: Vec::new() }
+    RunSpec { cfg, ops, faults: Vec::new(), mode: None }
 }
 
 /// C14: the same target contents reached in three maps and three sets by different histories,
@@ -979,5 +979,5 @@ pub fn generate_c14(rng: &mut Rng) -> RunSpec {
     }
     observe(&mut ops, rng);
     cfg.full_check_every = if ops.len() > 400 { 16 } else { 1 };
-    RunSpec { cfg, ops, faults: Vec::new() }
+    RunSpec { cfg, ops, faults: Vec::new(), mode: None }
 }
